@@ -120,6 +120,8 @@ fn collect_item(
                     Ok(item) => {
                         let mut vec = items.lock();
                         vec.push(item);
+                        #[cfg(feature = "verif")]
+                        crate::verif::point("r.push", vec.len(), 0);
                     }
                     Err(_) => break,
                 },
@@ -128,6 +130,8 @@ fn collect_item(
         }
 
         components_to_stop.fetch_sub(1, Ordering::SeqCst);
+        #[cfg(feature = "verif")]
+        crate::verif::point("r.eof", 0, 0);
         debug!("reader: collect_item stop");
     });
 
